@@ -2,6 +2,7 @@ import XalanModel.C19.XVecProofs
 import XalanModel.C19.XListProofs
 import XalanModel.C19.ArenaProofs
 import XalanModel.C19.XDeque
+import XalanModel.C19.XBVecProofs
 /-!
 # C19 — pluggable memory manager: balanced use; allocation failure is survivable
 
@@ -69,6 +70,34 @@ theorem vector_balanced_and_failure_contained (ops : List XVec.Op) (l : Ledger) 
   obtain ⟨hw, hh⟩ := XVec.run_spec ops {} l frame l.bad (by decide) h0
   have := holds_nil_perm (XVec.release_holds hw hh)
   exact ⟨this.1, this.2, XVec.release_reqs _ _⟩
+
+/-- **Vector of allocating elements: balanced and failure-contained.** Element type whose copy
+construction allocates (XalanDOMString, nested vectors): every history of push_back / reserve /
+resize / pop_back / clear / copy-construction on a fresh vector, every refusal index — in
+particular every index *inside* the element-copy loops of grow, reserve, the copy constructor and
+resize — and every frame: exactly the constructed prefix is destroyed when a copy throws, so after
+`~XalanVector` exactly the frame is outstanding, nothing was freed twice or foreign, and the
+destructor makes no request. -/
+theorem vector_alloc_elems_balanced_and_failure_contained (ops : List XBVec.Op) (l : Ledger)
+    (frame : List Nat) (hl : l.live.Perm frame) :
+    let r := XBVec.run false ops {} l
+    (r.2.1.destroy r.2.2).live.Perm frame ∧ (r.2.1.destroy r.2.2).bad = l.bad ∧
+    (r.2.1.destroy r.2.2).reqs = r.2.2.reqs := by
+  intro r
+  have h0 : XBVec.Good {} l frame l.bad := ⟨by decide, by simpa [XBVec.owned] using holds_of_perm hl⟩
+  obtain ⟨hw, hh⟩ := XBVec.run_spec ops {} l frame l.bad h0
+  have := holds_nil_perm (XBVec.release_spec _ _ [] frame l.bad hw (by simpa using hh))
+  exact ⟨this.1, this.2, XBVec.release_reqs _ _⟩
+
+/-- **Mutation "m_size = theTotalSize before the construction loop"**: vector [1,2] at capacity,
+third push grows: temporary buffer = request 6, copy of element 1 = request 7 refused — the
+temporary's destructor runs over storage that was never constructed (`ub`); as written the same
+refusal is a clean `oom` that leaves the vector unchanged. -/
+theorem vector_size_before_loop_counterexample :
+    let ops := [XBVec.Op.push 1, .push 2, .push 3]
+    (XBVec.run true ops {} { failAt := 7 }).1 = .ub ∧
+    (XBVec.run false ops {} { failAt := 7 }).1 = .ok ∧
+    (XBVec.run false ops {} { failAt := 7 }).2.1.elems.map (·.1) = [1, 2] := by decide
 
 /-- **Vector: strong guarantee of the growth paths** (copy-construct-then-swap): a refused
 `push_back` / `reserve` leaves contents, capacity and buffer as they were. -/
